@@ -368,6 +368,8 @@ fn child_main(args: &Args) {
             let _ = writeln!(out, "COUNT exhaustive_schedules:{} {}", prog.name, total);
             let _ = writeln!(out, "COUNT exhaustive_incomplete_parts:{} {}", prog.name, (!all) as u8);
         }
+        // quick tier: 60 % of the listed random walks (keeps the tier well under two minutes on a loaded machine)
+        let nrand = &(if args.tier_thorough { *nrand } else { *nrand * 6 / 10 });
         if *nrand > 0 && part.map(|p| p.0 == 0).unwrap_or(true) {
             let mut r = Rng::new(args.seed ^ (idx as u64 + 1).wrapping_mul(0x9E37_79B9));
             explore_random(prog, *nrand, &mut r, &mut |o| emit(o, &mut out));
